@@ -19,6 +19,12 @@ func New(r bufio.Reader) LexerReader {
 	content, _ := io.ReadAll(&r)
 	runes := []rune(string(content))
 
+	// the last line ends like every other line, whether or not the file has a
+	// final newline
+	if len(runes) > 0 && runes[len(runes)-1] != '\n' {
+		runes = append(runes, '\n')
+	}
+
 	return LexerReader{
 		runes:    runes,
 		pos:      0,
